@@ -585,7 +585,7 @@ def writeChartRows (c : WChart) : Except Err (List (List Str)) := do
   let bs ← beats defaultGrid (toTimingMap c.bpms) (objs.map (·.1))
   let slots := (objs.zip bs).map fun ob => slotOf ob.2 ob.1.2.1 ob.1.2.2
   match getKeys c.chartType with
-  | none => .error .other           -- `range(None)` : TypeError
+  | none => if slots.isEmpty then .ok [] else .error .other     -- `range(None)` : TypeError, at the first measure
   | some keys => writeLoop keys slots (-1) (measuresSorted slots)
 
 /-- Python `round(x, 2)` on the exact value: nearest multiple of 1/100, ties to even -/
